@@ -19,6 +19,7 @@ they are stated there.
 -/
 import Rooc.Props.C13
 import Rooc.Props.C14
+import Rooc.SolverWrap
 
 set_option linter.unusedSectionVars false
 set_option linter.unusedVariables false
@@ -214,6 +215,12 @@ theorem direct_start_canonicalFor {tol : K} (ht : 0 < tol) {lm : LinModel (Ext K
   obtain ⟨hfl, hoff⟩ := intoTableau_flip_offset hT
   exact ⟨T, hT, ⟨⟨_, hC⟩, hO, hS, hF hb, hfl, hoff⟩⟩
 
+/-- the `LpSolution` that `solve_real_lp_problem_slow_simplex` returns when its loop has stopped with success on the
+tableau `Tf` of the standard form `s`: `OptimalTableau::as_lp_solution` applied to `variables_values` under the names of
+`s`, with `optimal_value` as the reported objective. -/
+noncomputable def returnedSolution (s : StdModel (Ext K)) (Tf : Tab K) : SolverWrap.Solution (Ext K) :=
+  SolverWrap.asLpSolution s.vars ((basicSolution Tf).map Ext.fin) (Ext.fin (optimalValue Tf))
+
 /-! ### the composition -/
 
 section
@@ -226,6 +233,19 @@ theorem stdFeasible_of_sol (hT : CanonicalFor T (stdK s)) (se limit : Nat) (pref
   obtain ⟨m, hC⟩ := hT.canon
   obtain ⟨_, hSf, _⟩ := Props.C14.steps_preserve (tol := tol) hC se limit prefer
   exact (stdFeasible_iff s x).mpr ⟨hl, hx, (hT.sol x).mp ((hSf x).mp hS)⟩
+
+/-- when the loop stops `Finished` (exact comparisons), `variables_values` of the final tableau is a feasible point of
+the standard form (one value per column, all `≥ 0`, every equality holds). -/
+theorem finished_stdFeasible (hT : CanonicalFor T (stdK s)) (se limit : Nat) (prefer : List Nat)
+    (hfin : (solve (0:K) se limit prefer T).result = .ok ()) :
+    StdFeasible s (basicSolution (solve (0:K) se limit prefer T).final) := by
+  obtain ⟨m, hC⟩ := hT.canon
+  obtain ⟨hCf, _, hOf⟩ := Props.C14.steps_preserve (tol := (0:K)) hC se limit prefer
+  obtain ⟨hFf, _⟩ := Props.C14.steps_feasible_monotone hC hT.feasible se limit prefer
+  obtain ⟨bland, hstep⟩ := Phase1.solveLoop_ok_finished (tol := (0:K)) limit T 0 T.value [] hfin
+  obtain ⟨hSy, hny, _⟩ := Props.C14.finished_optimal_exact hCf hFf (hOf _ hT.objInv) hstep
+  refine stdFeasible_of_sol hT se limit prefer ?_ (nonneg_of_nth hny) hSy
+  rw [BasicSol.basicSolution_length, hCf.rect.costs]; rfl
 
 /-- **Finished ⇒ feasible and optimal for the ORIGINAL model** (exact comparisons, `tol = 0`).
 `y = variables_values` of the final tableau; `preimage lm y` is C13's positional map back (`x = p − m`). -/
